@@ -108,6 +108,7 @@ class H:
         self.rtol = 1e-7
         self.atol = 1e-9
         self.used_inputs = {}
+        self._undo = []
 
     # ---- inputs
     def _input(self, name, sort):
@@ -211,6 +212,32 @@ class H:
 
             return self.all(fn(SNum(larr.index_for(N.t))))
         return all(bool(self.all(fn(i))) for i in range(int(N)))
+
+    def map_rows(self, A, fn, N, rest):
+        """the array whose i-th row is fn(A[i]) (spec-side helper, both modes)"""
+        if self.mode == "sym":
+            from . import larr
+
+            return larr.LArr(A.N, A.idx, symnp.to_sarr(fn(A.row)), 0, rnp.float64)
+        n = int(N)
+        return rnp.array([fn(A[i]) for i in range(n)], dtype=float).reshape((n,) + tuple(rest))
+
+    def random_queue(self, arr):
+        """values the next numpy.random.random(shape) call inside the function returns: makes
+        the internal randomness an (arbitrary) named input of the contract"""
+        if self.mode == "sym":
+            core.ctx().memo.setdefault("rand_queue", []).append(arr)
+        else:
+            real = rnp.random.random
+            q = [rnp.asarray(arr, dtype=float)]
+
+            def fake(size=None):
+                if q and (size is None or tuple(rnp.atleast_1d(size)) == q[0].shape or size == q[0].shape):
+                    return q.pop(0).copy()
+                return real(size)
+
+            rnp.random.random = fake
+            self._undo.append(lambda: setattr(rnp.random, "random", real))
 
     def const(self, x):
         """a concrete array as the function would receive it"""
@@ -557,6 +584,9 @@ def replay_concrete(contract, model_vals, findings=None):
         return {"status": "ok-raises", "detail": repr(e), "failed": []}
     except Exception as e:
         return {"status": "exception", "detail": "%s: %s" % (type(e).__name__, e), "failed": ["no-unexpected-exception"], "exc_type": type(e).__name__}
+    finally:
+        for u in h._undo:
+            u()
     failed = [n for n, ok in h.results if not ok]
     return {"status": "fail" if failed else "pass", "failed": failed, "detail": ""}
 
